@@ -4,6 +4,8 @@
 //!   mode = files:<list>   every path of the list file (read as ISO-8859-1) + `n` variants of each
 //!          cases:<file>   `U <code points>` lines (snippets: tried as they are and inside wrappers) + `n` variants
 //!          gen            `n` generated design files (grammar-derived sentences), each with 2 variants
+//!          opt            the 'optional tokens' family: every construct with optional labels / end labels / keywords,
+//!                         every combination of its optional parts (exhaustive), each with `n` variants
 //!          replay:<file>  `U` lines, taken exactly as they are (no wrappers, no variants)
 //!
 //! cases_out: one line `U <code points>` per explored source (flushed BEFORE the implementation runs).
@@ -1256,6 +1258,140 @@ fn gen_program(ctx: &Ctx, rng: &mut Rng) -> String {
     units.join("\n")
 }
 
+
+// ---------------------------------------------------------------------------------------------
+// the 'optional tokens' family: every construct with an optional label / end label / end keyword /
+// optional keyword is rendered with EVERY combination of its optional parts (deterministic, exhaustive
+// per template; combinations the parser rejects are outside the property and skipped)
+// ---------------------------------------------------------------------------------------------
+#[derive(Clone, Copy)]
+enum Seg {
+    F(&'static str),            // fixed text
+    O(&'static str),            // optional text
+    A(&'static [&'static str]), // one of the alternatives
+}
+#[derive(Clone, Copy)]
+enum Wrap {
+    Unit,     // a design unit (or several) as it is
+    Seq,      // sequential statement inside a process
+    SeqLoop,  // sequential statement inside a loop inside a process
+    SeqFun,   // sequential statement inside a function body
+    Conc,     // concurrent statement inside an architecture
+    Decl,     // declaration inside an architecture
+    PkgDecl,  // declaration inside a package
+    BodyDecl, // declaration inside a package body
+    Iface,    // interface element of a procedure declaration
+    Port,     // interface element of an entity port clause
+}
+use Seg::{A, F, O};
+
+const OPT_TEMPLATES: &[(Wrap, &[Seg])] = &[
+    // ---- sequential statements
+    (Wrap::Seq, &[O("lbl :"), F("case"), O("?"), F("x is when a => null ; when others => null ; end case"), O("?"), O("lbl"), F(";")]),
+    (Wrap::Seq, &[O("lbl :"), F("if c then null ;"), O("elsif d then null ;"), O("else null ;"), F("end if"), O("lbl"), F(";")]),
+    (Wrap::Seq, &[O("lbl :"), A(&["", "for i in 0 to 3", "while c"]), F("loop null ;"), O("next"), F("end loop"), O("lbl"), F(";")]),
+    (Wrap::SeqLoop, &[O("l2 :"), A(&["next", "exit"]), O("lbl"), O("when c"), F(";")]),
+    (Wrap::Seq, &[O("lbl :"), F("s <="), A(&["", "transport", "inertial", "reject 1 ns inertial"]), F("a"), O("after 1 ns"), O(", b after 2 ns"), F(";")]),
+    (Wrap::Seq, &[O("lbl :"), F("s <="), A(&["force", "force in", "force out", "release", "release in", "release out"]), O("a"), F(";")]),
+    (Wrap::Seq, &[O("lbl :"), F("s <="), O("transport"), F("a when c"), O("else b when d"), O("else e"), F(";")]),
+    (Wrap::Seq, &[O("lbl :"), F("v := a"), O("when c else b"), F(";")]),
+    (Wrap::Seq, &[O("lbl :"), F("with x select"), O("?"), F("s <="), A(&["", "transport", "force", "force in"]), F("a when 1 , b when others ;")]),
+    (Wrap::Seq, &[O("lbl :"), F("with x select"), O("?"), F("v := a when 1 | 2 , b when others ;")]),
+    (Wrap::Seq, &[O("lbl :"), F("assert c"), O("report \"m\""), O("severity error"), F(";")]),
+    (Wrap::Seq, &[O("lbl :"), F("report \"m\""), O("severity note"), F(";")]),
+    (Wrap::Seq, &[O("lbl :"), F("wait"), O("on a , b"), O("until c"), O("for 1 ns"), F(";")]),
+    (Wrap::Seq, &[O("lbl :"), A(&["null", "p", "p ( a , b )", "p ( x => a )", "lib . pkg . p ( 1 )"]), F(";")]),
+    (Wrap::SeqFun, &[O("lbl :"), F("return"), O("x + 1"), F(";")]),
+    // ---- concurrent statements
+    (Wrap::Conc, &[O("lbl :"), O("postponed"), F("process"), A(&["", "( a , b )", "( all )"]), O("is"), O("variable v : t ;"), F("begin null ; end"), O("postponed"), F("process"), O("lbl"), F(";")]),
+    (Wrap::Conc, &[F("lbl : block"), O("( g )"), O("is"), O("generic ( n : natural ) ;"), O("generic map ( n => 1 ) ;"), O("port ( p : in bit ) ;"), O("port map ( p => s ) ;"), O("signal x : bit ;"), F("begin"), O("x <= '1' ;"), F("end block"), O("lbl"), F(";")]),
+    (Wrap::Conc, &[F("g : for i in 0 to 1 generate"), O("signal x : bit ;"), O("begin"), O("s <= a ;"), O("end ;"), F("end generate"), O("g"), F(";")]),
+    (Wrap::Conc, &[F("g : for i in 0 to 1 generate"), O("alt :"), F("begin s <= a ; end"), O("alt"), F("; end generate"), O("g"), F(";")]),
+    (Wrap::Conc, &[F("g : if"), O("a1 :"), F("c generate"), O("signal x : bit ;"), O("begin"), F("s <= a ;"), A(&["", "end ;", "end a1 ;"]), O("elsif d generate s <= b ;"), A(&["", "else generate s <= c ;", "else a3 : generate s <= c ; end a3 ;", "else a3 : generate begin s <= c ; end ;"]), F("end generate"), O("g"), F(";")]),
+    (Wrap::Conc, &[F("g : if c generate s <= a ; elsif"), O("a2 :"), F("d generate"), O("begin"), F("s <= b ;"), A(&["", "end ;", "end a2 ;"]), F("end generate"), O("g"), F(";")]),
+    (Wrap::Conc, &[F("g : case x generate when"), O("a1 :"), F("1 | 2 =>"), O("signal y : bit ; begin"), F("s <= a ;"), A(&["", "end ;", "end a1 ;"]), F("when"), O("a2 :"), F("others =>"), O("begin"), F("s <= b ;"), A(&["", "end ;", "end a2 ;"]), F("end generate"), O("g"), F(";")]),
+    (Wrap::Conc, &[F("u1 :"), A(&["c", "component c", "entity work . e", "entity work . e ( a )", "configuration work . cfg"]), O("generic map ( n => 1 )"), O("port map ( p => s , q => open )"), F(";")]),
+    (Wrap::Conc, &[O("lbl :"), O("postponed"), F("s <="), O("guarded"), A(&["", "transport", "inertial", "reject 1 ns inertial"]), F("a"), O("after 1 ns"), O("when c else b"), F(";")]),
+    (Wrap::Conc, &[O("lbl :"), O("postponed"), F("with x select"), O("?"), F("s <="), O("guarded"), O("transport"), F("a when 1 , b"), O("after 1 ns"), F("when others ;")]),
+    (Wrap::Conc, &[O("lbl :"), O("postponed"), F("assert c"), O("report \"m\""), O("severity error"), F(";")]),
+    (Wrap::Conc, &[O("lbl :"), O("postponed"), A(&["p", "p ( a , b )", "work . pkg . p ( x => a )"]), F(";")]),
+    // ---- declarations
+    (Wrap::Decl, &[A(&["", "pure", "impure"]), F("function f"), O("generic ( type t )"), O("parameter"), O("( x : t ; y : in t := 1 )"), F("return t"), O("is"), F(";")]),
+    (Wrap::Decl, &[A(&["", "pure", "impure"]), F("function"), A(&["f", "\"+\""]), O("parameter"), O("( x : t )"), F("return t is"), O("variable v : t ;"), F("begin return x ; end"), O("function"), A(&["", "f", "\"+\""]), F(";")]),
+    (Wrap::Decl, &[F("procedure p"), O("generic ( n : natural )"), O("parameter"), O("( x : in t ; signal s : out t )"), F(";")]),
+    (Wrap::Decl, &[F("procedure p"), O("parameter"), O("( x : in t )"), F("is"), O("variable v : t ;"), F("begin null ; end"), O("procedure"), O("p"), F(";")]),
+    (Wrap::Decl, &[F("package p is"), O("generic ( n : natural ) ;"), O("generic map ( n => 1 ) ;"), O("constant c : t := 1 ;"), F("end"), O("package"), O("p"), F(";")]),
+    (Wrap::Decl, &[F("package body p is"), O("constant c : t := 1 ;"), F("end"), O("package body"), O("p"), F(";")]),
+    (Wrap::Decl, &[F("package p is new work . gp"), O("generic map ( t => bit , n => <> )"), F(";")]),
+    (Wrap::Decl, &[A(&["function f", "procedure q"]), F("is new g"), O("[ bit return bit ]"), O("generic map ( t => bit )"), F(";")]),
+    (Wrap::PkgDecl, &[F("type r is record a : t ;"), O("b , c : t ;"), F("end record"), O("r"), F(";")]),
+    (Wrap::PkgDecl, &[F("type pt is protected"), O("procedure q ;"), O("impure function f return t ;"), F("end protected"), O("pt"), F(";")]),
+    (Wrap::BodyDecl, &[F("type pt is protected body"), O("variable v : t ;"), O("procedure q is begin null ; end ;"), F("end protected body"), O("pt"), F(";")]),
+    (Wrap::PkgDecl, &[F("type ph is range 0 to 10 units fs ;"), O("ps = 1000 fs ;"), O("ns = 1000 ps ;"), F("end units"), O("ph"), F(";")]),
+    (Wrap::Decl, &[F("component c"), O("is"), O("generic ( n : natural ) ;"), O("port ( p : in bit ) ;"), F("end component"), O("c"), F(";")]),
+    (Wrap::Decl, &[O("shared"), F("variable v : t"), O(":= 1"), F(";")]),
+    (Wrap::Decl, &[F("signal s , s2 : t"), A(&["", "register", "bus"]), O(":= 1"), F(";")]),
+    (Wrap::Decl, &[F("file f : text"), A(&["", "is \"x\"", "open read_mode is \"x\""]), F(";")]),
+    (Wrap::Decl, &[F("alias"), A(&["a", "\"+\"", "'c'"]), O(": t"), F("is b"), O("[ integer , bit return bit ]"), F(";")]),
+    (Wrap::Decl, &[F("attribute a of"), A(&["x", "x , y", "all", "others", "f [ t return t ]"]), F(":"), A(&["signal", "function", "label"]), F("is 1 ;")]),
+    (Wrap::Decl, &[F("for"), A(&["all", "others", "u1", "u1 , u2"]), F(": c"), A(&["", "use open", "use entity work . e", "use entity work . e ( a )", "use configuration work . cfg"]), O("generic map ( n => 1 )"), O("port map ( p => s )"), F(";"), O("end for ;")]),
+    (Wrap::Decl, &[F("subtype st is"), O("resolved"), F("t"), A(&["", "( 0 to 3 )", "range 0 to 3", "( open ) ( 0 to 1 )"]), F(";")]),
+    (Wrap::Decl, &[F("type at is array ("), A(&["natural range <>", "0 to 3", "t", "t range 0 to 1 , bit"]), F(") of"), O("resolved"), F("t ;")]),
+    (Wrap::Decl, &[F("use"), A(&["work . p . all", "work . p . \"+\"", "work . p . 'a' , ieee . q . x"]), F(";")]),
+    (Wrap::Iface, &[A(&["", "signal", "variable", "constant", "file"]), F("x"), O(", y"), F(":"), A(&["", "in", "out", "inout", "buffer", "linkage"]), F("t"), O("bus"), O(":= 1")]),
+    (Wrap::Port, &[O("signal"), F("x"), O(", y"), F(":"), A(&["", "in", "out", "inout", "buffer"]), F("t"), O("( 0 to 1 )"), O("bus"), O(":= '0'")]),
+    // ---- design units
+    (Wrap::Unit, &[O("library ieee , work ;"), O("use ieee . std_logic_1164 . all ;"), O("context work . ctx ;"), F("entity e is"), O("generic ( n : natural := 1 ) ;"), O("port ( p : in bit ) ;"), O("constant c : t := 1 ;"), O("begin"), O("assert true ;"), F("end"), O("entity"), O("e"), F(";")]),
+    (Wrap::Unit, &[O("library l ;"), F("architecture a of e is"), O("signal s : bit ;"), F("begin"), O("s <= '1' ;"), F("end"), O("architecture"), O("a"), F(";")]),
+    (Wrap::Unit, &[F("package p is"), O("generic ( n : natural ) ;"), O("constant c : t ;"), F("end"), O("package"), O("p"), F(";")]),
+    (Wrap::Unit, &[F("package body p is"), O("constant c : t := 1 ;"), F("end"), O("package body"), O("p"), F(";")]),
+    (Wrap::Unit, &[F("package p is new work . gp"), O("generic map ( n => 1 )"), F(";")]),
+    (Wrap::Unit, &[F("configuration c of"), A(&["e", "work . e"]), F("is"), O("use work . all ;"), F("for a"), O("for u1 : comp use entity work . e ; end for ;"), O("for all : c2 end for ;"), O("for g ( 0 to 1 ) end for ;"), F("end for ; end"), O("configuration"), O("c"), F(";")]),
+    (Wrap::Unit, &[F("context c is"), O("library l ;"), O("use l . p . all ;"), O("context l . c2 ;"), F("end"), O("context"), O("c"), F(";")]),
+];
+
+fn opt_wrap(w: Wrap, frag: &str) -> String {
+    match w {
+        Wrap::Unit => frag.to_string(),
+        Wrap::Seq => format!("architecture a of e is begin process begin {} end process ; end ;", frag),
+        Wrap::SeqLoop => format!("architecture a of e is begin process begin lbl : loop {} end loop lbl ; end process ; end ;", frag),
+        Wrap::SeqFun => format!("package body p is function f ( x : t ) return t is begin {} end ; end ;", frag),
+        Wrap::Conc => format!("architecture a of e is begin {} end ;", frag),
+        Wrap::Decl => format!("architecture a of e is {} begin end ;", frag),
+        Wrap::PkgDecl => format!("package p is {} end ;", frag),
+        Wrap::BodyDecl => format!("package body p is {} end ;", frag),
+        Wrap::Iface => format!("package p is procedure q ( {} ) ; end ;", frag),
+        Wrap::Port => format!("entity e is port ( {} ) ; end ;", frag),
+    }
+}
+
+/// every combination of the optional parts of a template
+fn opt_expand(segs: &[Seg]) -> Vec<String> {
+    let mut out: Vec<String> = vec![String::new()];
+    for s in segs {
+        let alts: Vec<&str> = match s {
+            F(t) => vec![*t],
+            O(t) => vec!["", *t],
+            A(ts) => ts.to_vec(),
+        };
+        let mut next = Vec::with_capacity(out.len() * alts.len());
+        for pre in &out {
+            for a in &alts {
+                let mut t = pre.clone();
+                if !a.is_empty() {
+                    if !t.is_empty() {
+                        t.push(' ');
+                    }
+                    t.push_str(a);
+                }
+                next.push(t);
+            }
+        }
+        out = next;
+    }
+    out
+}
+
 // ---------------------------------------------------------------------------------------------
 fn parse_u_line(line: &str) -> Option<String> {
     let mut it = line.split_whitespace();
@@ -1447,6 +1583,21 @@ fn main() {
                 }
                 if let Some(t) = parse_u_line(line) {
                     emit(&t);
+                }
+            }
+        } else if mode == "opt" {
+            // the 'optional tokens' family; n = number of variants of every accepted combination
+            let mut seen = std::collections::HashSet::new();
+            for (w, segs) in OPT_TEMPLATES.iter() {
+                for frag in opt_expand(segs) {
+                    let text = opt_wrap(*w, &frag);
+                    if !seen.insert(text.clone()) {
+                        continue;
+                    }
+                    if !accepted(&ctx, &text) {
+                        continue;
+                    }
+                    with_variants(&mut emit, &mut rng, &text, n);
                 }
             }
         } else if mode == "gen" {
